@@ -1,9 +1,70 @@
 package c17
 
 import (
+	"fmt"
+	"os"
+	"path/filepath"
+	"strconv"
+	"strings"
+	"sync"
 	"testing"
 
 	"verif/lib"
 )
 
-func TestMain(m *testing.M) { lib.Main(m) }
+// Scratch space. WAL files are fsynced on every vote of the node; on a memory-backed file system that costs
+// microseconds instead of tens of milliseconds, so the scratch root is /dev/shm/verif-c17-p<pid> when /dev/shm
+// exists (else $TMPDIR). The root is removed when the test process ends; roots of processes that were killed are
+// swept by the next C17 process that starts.
+var (
+	scratchOnce sync.Once
+	scratchRoot string
+)
+
+const scratchPrefix = "verif-c17-p"
+
+func scratch() string {
+	scratchOnce.Do(func() {
+		base := os.TempDir()
+		if st, err := os.Stat("/dev/shm"); err == nil && st.IsDir() {
+			base = "/dev/shm"
+		}
+		scratchRoot = filepath.Join(base, fmt.Sprintf("%s%d", scratchPrefix, os.Getpid()))
+		if err := os.MkdirAll(scratchRoot, 0o700); err != nil {
+			scratchRoot, _ = os.MkdirTemp("", scratchPrefix)
+		}
+	})
+	return scratchRoot
+}
+
+func sweepStaleScratch() {
+	for _, base := range []string{"/dev/shm", os.TempDir()} {
+		ents, err := os.ReadDir(base)
+		if err != nil {
+			continue
+		}
+		for _, e := range ents {
+			if !strings.HasPrefix(e.Name(), scratchPrefix) {
+				continue
+			}
+			pid, err := strconv.Atoi(strings.TrimPrefix(e.Name(), scratchPrefix))
+			if err != nil || pid == os.Getpid() {
+				continue
+			}
+			if _, err := os.Stat(fmt.Sprintf("/proc/%d", pid)); os.IsNotExist(err) {
+				os.RemoveAll(filepath.Join(base, e.Name()))
+			}
+		}
+	}
+}
+
+func TestMain(m *testing.M) {
+	sweepStaleScratch()
+	code := m.Run()
+	closeFuzzEnvs()
+	if scratchRoot != "" {
+		os.RemoveAll(scratchRoot)
+	}
+	lib.Flush()
+	os.Exit(code)
+}
